@@ -10,7 +10,11 @@ open Complex
 
 /-- `np.round(x).astype(int)` (half to even) and `np.min` of two reals, at `R = ℝ` -/
 noncomputable instance instFftLikeReal : FftLike ℝ :=
-  ⟨fun x => if x - ⌊x⌋ < 1 / 2 then ⌊x⌋ else if 1 / 2 < x - ⌊x⌋ then ⌊x⌋ + 1 else if ⌊x⌋ % 2 = 0 then ⌊x⌋ else ⌊x⌋ + 1, min⟩
+  ⟨fun x => if x - ⌊x⌋ < 1 / 2 then ⌊x⌋ else if 1 / 2 < x - ⌊x⌋ then ⌊x⌋ + 1 else if ⌊x⌋ % 2 = 0 then ⌊x⌋ else ⌊x⌋ + 1, min, fun a b => decide (b < a)⟩
+
+theorem gt_real (a b : ℝ) : FftLike.gt a b = true ↔ b < a := by
+  show decide (b < a) = true ↔ b < a
+  exact decide_eq_true_iff
 
 /-- `t ↦ exp(i t)` is additive -/
 theorem expI_add_complex (a b : ℝ) : (CxLike.expI (a + b) : ℂ) = CxLike.expI a * CxLike.expI b := by
